@@ -2,7 +2,7 @@ import Cpppo.Model.Wire
 import Cpppo.Model.Session
 import Cpppo.Driver.Logix
 /-!
-driver: `srv <fixed 0|1> <route> <maxBytes> <tags> <rand> <frames>`
+driver: `sess <fixed 0|1> <route> <maxBytes> <tags> <rand> <frames>`
   route  = `*` (UCMM.route_path None) | `-` (falsy) | `port:link,…`
   tags   = as for `lgx`
   rand   = the values `random.randint` will deliver, joined by ',' ("-" = none)
@@ -19,7 +19,7 @@ namespace Cpppo.Driver.Session
 open Cpppo.Wire Cpppo.Logix Cpppo.Session
 open Cpppo.Driver.Logix (splitOn parsePath parseReq parseTag addTag dump)
 
-def commands : List String := ["srv"]
+def commands : List String := ["sess"]
 
 def parseRoute (s : String) : Option (List RouteSeg) := (splitNonEmpty s ',').mapM natPair
 
@@ -76,7 +76,7 @@ def showRun (r : Run) : String :=
   s!"{reps} n={r.consumed} e={showEnd r.end} s={sess} d={dump r.srv.dev}"
 
 def handle : List String → Option String
-  | ["srv", fixed, route, maxb, tags, rand, frames] => do
+  | ["sess", fixed, route, maxb, tags, rand, frames] => do
     let fixed ← parseBool fixed
     let cfg : Cfg := { route := ← parseRouteCfg route }
     let maxb ← maxb.toNat?
